@@ -70,7 +70,19 @@ def rule_fallback(ctx, r):
     via = any(isinstance(c.func, ast.Attribute) and c.func.attr == "target_from_template" and dotted(c.func.value) == "self" for c in _calls(mp.node))
     r.check(via, f"{mp.module.relpath}::{mp.qual}", "map creates its targets through target_from_template", "map does not create its targets through target_from_template", mp.where)
     # default working dir of the workflow: directory of the real path of the defining file
-    gwd = idx.method(wf, "_get_working_dir")
+    # (a `@working_dir.default` method - under whatever name -, or a module-level function given as the field's factory)
+    gwd = next((m for m in wf.methods.values() if "working_dir.default" in [d or "" for d in m.decorator_names()]), None) or idx.method(wf, "_get_working_dir")
+    if gwd is None:
+        fld = next((f_ for f_ in wf.fields if f_[0] == "working_dir"), None)
+        if fld is not None and isinstance(fld[2], ast.Call):
+            for kw_ in fld[2].keywords:
+                cand = kw_.value
+                if kw_.arg == "default" and isinstance(cand, ast.Call) and (dotted(cand.func) or "").endswith("Factory") and cand.args:
+                    cand = cand.args[0]
+                if kw_.arg in ("factory", "default") and isinstance(cand, (ast.Name, ast.Attribute)):
+                    fobj = idx.lookup(idx.canon(cand, wf.module) or "")
+                    if hasattr(fobj, "node") and hasattr(fobj, "key") and not hasattr(fobj, "methods"):
+                        gwd = fobj
     got = None
     if gwd is not None:
         # evaluated: the defining file is reached as /link/proj/workflow.py, where /link is a symbolic link to /real; whatever way the directory is computed
@@ -81,7 +93,7 @@ def rule_fallback(ctx, r):
                  "inspect.currentframe": lambda *a, **k: Obj("frame"),
                  "os.path.realpath": lambda p_, *a, **k: real(p_), "attr:resolve": lambda recv, *a, **k: SymPath(real(recv)), "os.path.abspath": lambda p_: str(p_)}
         try:
-            got = PureInterp(ctx, hooks=hooks).call(gwd, (), {}, self_obj=Obj("workflow", **{"__class__": wf}))
+            got = PureInterp(ctx, hooks=hooks).call(gwd, (), {}, self_obj=Obj("workflow", **{"__class__": wf}) if gwd.cls is not None else None)
         except (Raised, Unsupported) as exc:
             got = f"<{exc}>"
     r.check(got == "/real/proj", f"{wf.module.relpath}::Workflow._get_working_dir", "default working_dir = directory of the real path of the file that created the workflow (a str)",
